@@ -148,8 +148,18 @@ def _history(rng):
     nxt = {a: min(SEQ_MAX, initial.get(a, 0) + rng.randrange(1, 4)) for a in addrs}
     events = []
     sent = []
+    rx_addr = next(x for x in range(1, 99) if x not in addrs)
+    explicit = next(x for x in range(0x1100, 0x1200) if x not in addrs)  # an address the receiver uses as explicit source
+    strangers = [unknown, rx_addr, explicit]  # none of them is in the receiver's sender table
+    for a in (rx_addr, explicit):
+        nxt[a] = rng.choice((2, 50, 1 << 20))
     for _ in range(rng.randrange(6, 41)):
-        sa = unknown if rng.random() < 0.12 else rng.choice(known)
+        if rng.random() < 0.1:
+            # the receiver itself sends a secured telegram (own address or an explicit source address)
+            events.append({"tag": "own_send", "how": "own_send", "da": rng.choice(gas), "src": rng.choice((None, None, explicit)),
+                           "plen": rng.choice((1, 2, 5)), "pseed": rng.randrange(1 << 30), "sa": rx_addr, "n": 0})
+            continue
+        sa = rng.choice(strangers) if rng.random() < 0.15 else rng.choice(known)
         da = rng.choice(gas)
         r = rng.random()
         ev = {"sa": sa, "da": da, "plen": rng.choice((1, 1, 2, 3, 5, 20)), "pseed": rng.randrange(1 << 30), "auth": rng.random() < 0.3,
@@ -193,7 +203,7 @@ def _history(rng):
         if ev["how"] == "genuine":
             sent.append({k: v for k, v in ev.items() if k != "tag"})
     return {"known": {str(a): initial[a] for a in known}, "unknown": unknown, "keys": keys, "events": events,
-            "rx": next(x for x in range(1, 99) if x not in addrs)}
+            "rx": rx_addr}
 
 
 def _run_history(ctx, hist):
@@ -205,6 +215,13 @@ def _run_history(ctx, hist):
     failed_how: dict[int, set[str]] = {}
     trace = []
     for i, ev in enumerate(hist["events"]):
+        if ev["tag"] == "own_send":
+            # outgoing traffic of the receiver must not turn any address into a known sender
+            payload = group_payload(_Rng(ev["pseed"]), ev["plen"])
+            rx.secure_sync(Telegram(destination_address=GroupAddress(ev["da"]), payload=payload), src=ev["src"])
+            ctx.count("receiver_own_secured_sends")
+            trace.append("o")
+            continue
         raw, apdu = _mk_frame(ev, hist["keys"])
         sa = ev["sa"]
         n = ev["n2"] if ev["how"] == "badseq" else ev["n"]
@@ -237,7 +254,9 @@ def _run_history(ctx, hist):
         if got:
             ctx.count("delivered")
             if not known:
-                ctx.violation("frame-from-unknown-sender-delivered", wit, f"frame from {sa:#06x}, not in the address table, was delivered")
+                own = sa == hist["rx"] or any(e["tag"] == "own_send" and e.get("src") == sa for e in hist["events"][:i])
+                ctx.violation("frame-from-unknown-sender-delivered" + ("-receivers-own-source-address" if own else ""), wit,
+                              f"frame from {sa:#06x}, not in the address table, was delivered")
                 return
             if not valid:
                 ctx.violation(f"forged-frame-delivered-{ev['how']}", wit, f"forged frame ({ev['how']}) with counter {n} was delivered")
@@ -261,6 +280,8 @@ def _run_history(ctx, hist):
         ctx.count("not_delivered")
         if not known:
             ctx.count("unknown_sender_rejected")
+            if sa == hist["rx"]:
+                ctx.count("own_address_as_source_rejected")
             continue
         if not valid:
             ctx.count("forged_rejected")
@@ -288,6 +309,84 @@ def _run_history(ctx, hist):
     if len(ctx.samples) < 3:
         ctx.sample({"history": "".join(trace), "senders_known": len(initial), "events": len(hist["events"]),
                     "first": {k: v for k, v in hist["events"][0].items()}})
+
+
+# ---------------------------------------------------------------------------
+# Data Secure re-initialised on the same XKNX from another keyring (interface stop / start with a new export)
+
+def _reinit_spec(rng):
+    gas = rng.sample(range(1, 0x10000), rng.choice((1, 2)))
+    ias = rng.sample(range(0x100, 0xFFFF), 5)
+    phases = []
+    # phase 0: senders 0..3; later phases drop some, keep some, add sender 4
+    members = [ias[:4]]
+    members.append([a for a in ias[:4] if rng.random() < 0.6] or [ias[0]])
+    if rng.random() < 0.5:
+        members.append(rng.sample(ias, rng.randrange(1, 5)))
+    for m in members:
+        via_interface = [a for a in m if rng.random() < 0.3]
+        phases.append({"devices": {str(a): rng.choice((None, 0, rng.randrange(1, 1000))) for a in m if a not in via_interface},
+                       "interface_senders": via_interface, "frames": rng.randrange(4, 12)})
+    return {"keys": {str(g): rng.randbytes(16).hex() for g in gas}, "ias": ias, "phases": phases, "seed": rng.randrange(1 << 30)}
+
+
+def _reinit_case(ctx, spec):
+    from vlib.ds_harness import load_project_keyring, make_project, project_tables
+
+    r = _Rng(spec["seed"])
+    keys = {int(g): bytes.fromhex(k) for g, k in spec["keys"].items()}
+    gas = sorted(keys)
+    node = None
+    counter = 2000  # every genuine frame of the case carries a counter above everything seen before
+    delivered_before: dict[int, int] = {}
+    for pi, phase in enumerate(spec["phases"]):
+        project = make_project(keys, {int(a): n for a, n in phase["devices"].items()},
+                               {gas[0]: phase["interface_senders"]} if phase["interface_senders"] else None)
+        _, known = project_tables(project)
+        keyring = load_project_keyring(project, r)
+        if node is None:
+            node = Node.from_keyring(keyring, own_address=0x00FE)
+        else:
+            node.reinit(keyring)
+            ctx.count("reinitialisations")
+        if node.ds is None:
+            ctx.inconclusive("keyring with group keys gave no DataSecure instance")
+            return
+        for k in range(phase["frames"]):
+            sa = r.choice(spec["ias"])
+            counter += r.choice((1, 1, 3, 1000))
+            ga = r.choice(gas)
+            payload = group_payload(r, r.choice((1, 2, 5)))
+            raw = auth_only_frame(keys[ga], Telegram(destination_address=GroupAddress(ga), payload=payload), sa, counter, auth_only=r.random() < 0.3)
+            out = node.feed(raw)
+            ctx.ev()
+            is_known = sa in known
+            dropped = pi > 0 and not is_known and sa in delivered_before
+            ctx.count("reinit_frames")
+            ctx.distinct(("reinit", pi, is_known, dropped, out.kind()))
+            wit = {"spec": spec, "phase": pi, "frame": k, "sender": sa, "counter": counter, "known_in_this_phase": sorted(known),
+                   "delivered_in_earlier_phase_with_counter": delivered_before.get(sa), "raw": raw, "outcome": out.kind()}
+            if out.exc is not None:
+                ctx.violation(f"receiver-raises-{type(out.exc).__name__}", wit, "receive path raised")
+                return
+            got = len(out.delivered)
+            if got and not is_known:
+                ctx.violation("frame-from-unknown-sender-delivered-after-reinitialisation" if pi else "frame-from-unknown-sender-delivered", wit,
+                              f"phase {pi}: frame from {sa:#06x}, not in the tables of the keyring in force, was delivered"
+                              + (" (known before the re-initialisation)" if dropped else ""))
+                return
+            if not got and is_known:
+                ctx.violation("fresh-genuine-frame-dropped-after-reinitialisation" if pi else "fresh-genuine-frame-dropped", wit,
+                              f"phase {pi}: genuine frame {counter} from known sender {sa:#06x} not delivered")
+                return
+            if got:
+                ctx.count("reinit_delivered")
+                delivered_before[sa] = counter
+            else:
+                ctx.count("reinit_unknown_rejected")
+                if dropped:
+                    ctx.count("reinit_dropped_sender_rejected")
+    ctx.count("reinit_cases")
 
 
 # ---------------------------------------------------------------------------
@@ -490,13 +589,13 @@ def run(ctx):
         "frames that reached the interface must be strictly increasing"
     )
     ctx.require("histories", "events_genuine", "events_replay", "events_reorder", "events_forged", "events_arbitrary", "delivered",
-                "forged_rejected", "stale_rejected", "replays_with_unprotected_bits_changed", "replays_with_repeat_flag_toggled", "garbage_secured_apdu_len_0", "garbage_secured_apdu_len_1", "garbage_secured_apdu_len_-1", "unknown_sender_rejected", "outgoing_runs", "outgoing_frames", "exhaustion_errors",
+                "forged_rejected", "stale_rejected", "receiver_own_secured_sends", "reinit_cases", "reinitialisations", "reinit_delivered", "reinit_dropped_sender_rejected", "own_address_as_source_rejected", "replays_with_unprotected_bits_changed", "replays_with_repeat_flag_toggled", "garbage_secured_apdu_len_0", "garbage_secured_apdu_len_1", "garbage_secured_apdu_len_-1", "unknown_sender_rejected", "outgoing_runs", "outgoing_frames", "exhaustion_errors",
                 "outgoing_frames_accepted_by_receiver", "wire_runs", "wire_secured_frames", "wire_outcome_ok", "wire_outcome_slow",
                 "wire_outcome_fail_after", "wire_outcome_noconf", "wire_exhaustion_errors", "wire_runs_reaching_last_counter")
     loop = new_loop()
     try:
         with observing_management():
-            for i in range(ctx.scale(1500, 100000)):
+            for i in range(ctx.scale(1500, 60000)):
                 hist = _history(rng)
                 if ctx.mine(i):
                     _run_history(ctx, hist)
@@ -516,6 +615,10 @@ def run(ctx):
                             "start": rng.choice((1, 255, 256, 65535, (1 << 32) - 1, (1 << 40) - 2, rng.randrange(1, SEQ_MAX - 10)))}
                     if ctx.mine(j):
                         _outgoing(ctx, loop, spec)
+            for i in range(ctx.scale(12, 600)):
+                spec = _reinit_spec(rng)
+                if ctx.mine(i):
+                    _reinit_case(ctx, spec)
             for i in range(ctx.scale(400, 20000)):
                 spec = _wire_spec(rng, near_top=i % 4 == 3)
                 if ctx.mine(i):
@@ -530,6 +633,8 @@ def replay(ctx, witness):
         with observing_management():
             if "history" in witness:
                 _run_history(ctx, witness["history"])
+            elif "phases" in witness["spec"]:
+                _reinit_case(ctx, witness["spec"])
             elif "outcomes" in witness["spec"]:
                 _outgoing_wire(ctx, loop, witness["spec"])
             else:
